@@ -37,7 +37,10 @@ class C16(Prop):
                      "wire:typeMismatch", "wire:integrityViolation", "rawwire", "handler:ret", "handler:retnone",
                      "handler:raise", "handler:xraise", "handler:retd", "handler:retv", "handler:unknownModule", "ext", "caps",
                      "caps2", "capsmut", "speccaps", "share:ok", "share:moduleExists", "mod2:ok", "flow:ok", "flow:typeMismatch",
-                     "flow:integrityViolation", "exec:ok"] + ["exec:" + t for t in ERR_TAGS])
+                     "flow:integrityViolation", "exec:ok"]
+                    # the per-delivery "Multiple values" guard is unreachable since fix 56841f4 (two wires into one port and
+                    # wire + external value are both rejected in the pre-flight); the model keeps the branch like the code does
+                    + ["exec:" + t for t in ERR_TAGS if t != "multipleValues"])
     assumptions = [
         "handlers return a dict (or None) of raw or TypedValue entries, or raise; they do not mutate the dict they are "
         "given and do not call back into the executor",
@@ -346,6 +349,25 @@ class C16(Prop):
                     cases.append({"lines": lines, "note": "executor reused after diagram edits"})
         spaces.append({"name": "one executor: execute, then every sequence of <= 2 diagram edits (module with/without outputs, "
                                "handler, source; duplicate wire; late handler; competing external) each followed by execute",
+                       "cases": cases})
+        # G: a chain 0 -> 1 -> 2 in every dict order, every subset of the wired ports ALSO given an external value
+        cases = []
+        for perm in itertools.permutations([0, 1, 2]):
+            decl = {0: "mod 0 I O 0:0:1 C 0", 1: "mod 1 I 0:0:1 O 0:0:1 C 1", 2: "mod 2 I 0:0:0 O C"}
+            for mask in range(1, 4):
+                for sinkh in (0, 1):
+                    for enf in ("1", "0", "d"):
+                        lines = [decl[i] for i in perm] + ["wire 0 0 1 0", "wire 1 0 2 0", "handler 0 ret 0:raw:4",
+                                                           "handler 1 ret 0:raw:5"]
+                        if sinkh:
+                            lines.append("handler 2 ret")
+                        if mask & 1:
+                            lines.append("ext 1 0 raw 7")
+                        if mask & 2:
+                            lines.append("ext 2 0 typed 0 2 8")
+                        cases.append({"lines": lines + [f"exec {enf}"], "note": "wired port also fed externally"})
+        spaces.append({"name": "chain of three modules in every dict order, every non-empty subset of the wired ports also "
+                               "given an external value (two sources), sink with/without handler, each enforce setting",
                        "cases": cases})
         # D: a source module (no inputs) and a module with an input, each with every raising adversary
         cases = []
@@ -792,6 +814,14 @@ class C16(Prop):
         for m, c in cnt.items():
             if c > 1:
                 V("each_module_once", f"module {m} invoked once", c, idx)
+        # "only after all modules feeding it" - in every run, also one that raises later: when a module is invoked, every
+        # module wired into one of its declared input ports (and having a handler) has been invoked before
+        for i, (b, _) in enumerate(calls):
+            before = {m for m, _ in calls[:i]}
+            for (a, p, b2, q, _) in wires:
+                if b2 == b and b in mods and q in mods[b][0] and a in mods and a in handlers and a not in before:
+                    V("after_all_feeders", f"module {a} (wired into {b}.{q}) invoked before module {b}",
+                      [m for m, _ in calls], idx)
         if st == "hang":
             V("raises_instead_of_looping", "execute returns or raises", f"still running after {STEP_BUDGET} source lines", idx)
             return
